@@ -25,7 +25,7 @@ import (
 )
 
 var st = stat.New("C11",
-	"Case = one proxy (with or without a registered push callback) + a scripted server that answers every request; 1..4 rounds, round = {warm-up call on the live connection, server-side close of kind {right after a response | while idle | reconnect notification (id 0, _reconnect_) then close after 20 ms | reconnect notification, after which the server stops serving that connection and closes it only 1.5 s later | abortive close (RST) | listener restart}, wait until the client has observed the close, generated gap from {0,1,10,100,300,500,700,900,1100,2500} ms, then 1..3 concurrent calls with a 1200 ms timeout; optionally a 1150 ms settle period}. Oracle: every call issued after the observed close succeeds (a call that fails or takes >= 1000 ms is a violation; 400..1000 ms is re-run twice before it counts); the server log shows each call's request exactly once and within 400 ms of the call; at most one new connection is opened per close; after the settle period the healthy new connection is not regarded as closed and no further connection was opened. Non-trivial = a call issued < 1 s after an observed close, preceded by >= 1 successful call on the closed connection. Distinct = distinct case JSON.",
+	"Case = one proxy (with or without a registered push callback) + a scripted server that answers every request; 1..4 rounds, round = {warm-up call on the live connection, server-side close of kind {right after a response | while idle | reconnect notification (id 0, _reconnect_) then close after 20 ms | reconnect notification, after which the server stops serving that connection and closes it only 1.5 s later | abortive close (RST) | listener restart | listener restart with 1..8 calls issued while the server is down (after enough successful calls to keep the failures a minority in the health counters)}; a third of the cases use a client send queue of 4 requests (clientqueuelen), wait until the client has observed the close, generated gap from {0,1,10,100,300,500,700,900,1100,2500} ms, then 1..3 concurrent calls with a 1200 ms timeout; optionally a 1150 ms settle period}. Oracle: every call issued after the observed close succeeds (a call that fails or takes >= 1000 ms is a violation; 400..1000 ms is re-run twice before it counts); the server log shows each call's request exactly once and within 400 ms of the call; at most one new connection is opened per close; after the settle period the healthy new connection is not regarded as closed and no further connection was opened. Non-trivial = a call issued < 1 s after an observed close, preceded by >= 1 successful call on the closed connection. Distinct = distinct case JSON.",
 	"calls racing with a close the client cannot yet know about (FIN in flight) are excluded by construction: calls are issued only after the transport's closed flag is set",
 	"interleavings of the client's sender/receiver goroutines are sampled through the generated gaps, not enumerated")
 
@@ -36,6 +36,9 @@ type Round struct {
 	GapMs  int    `json:"gap_ms"`
 	NCalls int    `json:"n_calls"`
 	Settle bool   `json:"settle,omitempty"`
+	// DownCalls (close kind restart-down): calls issued while the server is down (they may
+	// fail - the server is not reachable then - but must not poison the calls after the restart)
+	DownCalls int `json:"down_calls,omitempty"`
 }
 
 type Case struct {
@@ -43,27 +46,35 @@ type Case struct {
 	// of pushing servers do
 	PushCallback bool    `json:"push_callback,omitempty"`
 	Rounds       []Round `json:"rounds"`
+	// SmallQueue: the client's send queue holds 4 requests (clientqueuelen) instead of 10000
+	SmallQueue bool `json:"small_queue,omitempty"`
 }
 
 func draw(rt *rapid.T) Case {
 	var c Case
 	c.PushCallback = rapid.IntRange(0, 2).Draw(rt, "pushCallback") == 0
+	c.SmallQueue = rapid.IntRange(0, 2).Draw(rt, "smallQueue") == 0
 	n := rapid.IntRange(1, 4).Draw(rt, "nrounds")
 	for i := 0; i < n; i++ {
-		c.Rounds = append(c.Rounds, Round{
-			Close:  rapid.SampledFrom([]string{"after-response", "after-response", "idle", "idle", "push", "push-linger", "push-linger", "rst", "restart"}).Draw(rt, "close"),
+		rd := Round{
+			Close:  rapid.SampledFrom([]string{"after-response", "after-response", "idle", "idle", "push", "push-linger", "push-linger", "rst", "restart", "restart-down", "restart-down"}).Draw(rt, "close"),
 			GapMs:  rapid.SampledFrom([]int{0, 1, 10, 100, 300, 500, 700, 900, 1100, 2500}).Draw(rt, "gap"),
 			NCalls: rapid.IntRange(1, 3).Draw(rt, "ncalls"),
 			Settle: rapid.IntRange(0, 3).Draw(rt, "settle") == 0,
-		})
+		}
+		if rd.Close == "restart-down" {
+			rd.DownCalls = rapid.IntRange(1, 8).Draw(rt, "downCalls")
+		}
+		c.Rounds = append(c.Rounds, rd)
 	}
 	return c
 }
 
 var (
-	comm   *tars.Communicator
-	once   sync.Once
-	objSeq int64
+	comm      *tars.Communicator
+	commSmall *tars.Communicator // clientqueuelen 4
+	once      sync.Once
+	objSeq    int64
 )
 
 const callTimeoutMs = 1200
@@ -109,7 +120,15 @@ type outcome struct {
 }
 
 func runOnce(c Case) outcome {
-	once.Do(func() { comm = tars.NewCommunicator() })
+	once.Do(func() {
+		comm = tars.NewCommunicator()
+		commSmall = tars.NewCommunicator()
+		commSmall.Client.ClientQueueLen = 4
+	})
+	cm := comm
+	if c.SmallQueue {
+		cm = commSmall
+	}
 	srv, err := peer.Listen("127.0.0.1")
 	if err != nil {
 		return outcome{f: stat.Failf("harness-failure", "listen: %v", err)}
@@ -126,7 +145,7 @@ func runOnce(c Case) outcome {
 			s.CloseConn(r.Conn)
 		}
 	}
-	e.sp = tars.NewServantProxy(comm, fmt.Sprintf("Verif.C11.Obj%d@tcp -h 127.0.0.1 -p %d -t 60000", atomic.AddInt64(&objSeq, 1), srv.Port))
+	e.sp = tars.NewServantProxy(cm, fmt.Sprintf("Verif.C11.Obj%d@tcp -h 127.0.0.1 -p %d -t 60000", atomic.AddInt64(&objSeq, 1), srv.Port))
 	if c.PushCallback {
 		e.sp.SetPushCallback(func([]byte) {})
 	}
@@ -163,10 +182,38 @@ func runOnce(c Case) outcome {
 		if o := checkCall(ri, "warm-up call", err, took, tok, start); o != nil {
 			return *o
 		}
+		if rd.Close == "restart-down" {
+			// enough successful calls first, so that the failures while the server is down stay
+			// a minority in the adapter's health counters (the property is about reconnecting,
+			// not about failover)
+			for k := 0; k < 3*rd.DownCalls; k++ {
+				err, took, tok, start := e.call()
+				if o := checkCall(ri, "warm-up call", err, took, tok, start); o != nil {
+					return *o
+				}
+			}
+		}
 		_, _, ev0 := srv.Snapshot()
 		accepted0 := countAccepted(ev0)
 		// server-side close
 		switch rd.Close {
+		case "restart-down":
+			srv.StopListening()
+			srv.CloseAllConns()
+			dl := time.Now().Add(2 * time.Second)
+			for !e.clientClosed() && time.Now().Before(dl) {
+				time.Sleep(200 * time.Microsecond)
+			}
+			for k := 0; k < rd.DownCalls; k++ {
+				_, took, _, _ := e.call() // the server is down: an error is legitimate
+				// deadline + connection-establishment bound (3 s dial timeout) + slack
+				if took > (callTimeoutMs+3000+600)*time.Millisecond {
+					return outcome{f: stat.Failf("call-hangs-while-server-down", "round %d: a call issued while the server was down returned only after %v (timeout %d ms, dial timeout 3 s)", ri, took.Round(time.Millisecond), callTimeoutMs)}
+				}
+			}
+			if err := srv.Relisten(); err != nil {
+				return outcome{f: stat.Failf("harness-failure", "relisten: %v", err)}
+			}
 		case "after-response":
 			err, took, tok, start := e.callx(true)
 			if o := checkCall(ri, "call before the close", err, took, tok, start); o != nil {
